@@ -1,12 +1,16 @@
 /-
   C18 — "With a root directory set, nothing outside it is ever read".
 
-  The property is about file *contents*: every `open` goes through the `os.Root` walk
-  (`FS.rootWalk` / `FS.rootOpen`).  The existence probes `findFile` / `globFiles` /
-  `evalSymlinks` deliberately see the whole file system, exactly like the Go code's
-  os.Stat / filepath.Glob / filepath.EvalSymlinks; nothing below claims they are confined.
+  Every `open` goes through the `os.Root` walk (`FS.rootWalk` / `FS.rootOpen`), and so do the
+  existence probes for parent layer files (`FS.rootExists` = `Parser.stat`, `FS.globFiles` =
+  `Parser.globFiles`).  `filepath.EvalSymlinks` is not rooted, but it is only called on a path
+  that has just been opened through the root; `FileMatch` (the command line argument itself)
+  deliberately sees the whole file system.  The first part is about single opens; the second
+  part (`C18_*_independent`, from `C18_sameInside_agree` on) shows that the WHOLE evaluation —
+  parents, layering, the command line loop — depends on the inside of the root only.
 -/
 import BklProofs.Lemmas.Files
+import BklProofs.Lemmas.C18Eval
 namespace Bkl
 
 /-- The `os.Root` walk never leaves the root. -/
@@ -253,5 +257,196 @@ example : setRoot exFS ⟨["w"], ["w"]⟩ "r/sub" = .ok ⟨["w", "r", "sub"], ["
   have h3 : exFS.rootWalk ["w"] linkFuel ["w"] ["r", "sub"] = .ok ["w", "r", "sub"] := by decide
   simp only [h3]
   rfl
+
+/-! ## the whole evaluation is independent of everything outside the root
+
+  `fs.inside root` is the list of entries at and below `root`; `sameInside root fs₁ fs₂` says the
+  two file systems have exactly the same entries there (anything may differ — contents, kinds,
+  existence — outside).  `RootPlain fs root`: the root is a clean path and the root and its
+  ancestors are plain directories (no symlink on the way to the root); this is what makes the
+  unrooted `filepath.EvalSymlinks` of a path inside the root stay inside. -/
+
+/-- The same entries inside the root give the same `lstat` inside the root, so all the
+    single-open theorems above (`C18_independent_walk`, `C18_independent_open`,
+    `C18_independent`) apply. -/
+theorem C18_sameInside_agree (root : Comps) (fs₁ fs₂ : FS) (h : sameInside root fs₁ fs₂) :
+    agreeInside root fs₁ fs₂ :=
+  c18e_agreeInside_of_sameInside h
+
+/-- non-vacuity: the two sample file systems have the same entries inside /w/r, differ outside
+    (a different secret, an extra /etc), and /w, /w/r are plain directories in both -/
+example : sameInside ["w", "r"] exFS exFS' ∧ exFS.entries ≠ exFS'.entries ∧
+    RootPlain exFS ["w", "r"] ∧ RootPlain exFS' ["w", "r"] :=
+  ⟨by decide, by decide, c18e_rootPlain_of_B (by decide), c18e_rootPlain_of_B (by decide)⟩
+
+/-- The rooted probes — `Parser.stat` (`rootExists`, hence the rooted `findFile`), the directory
+    listing and `Parser.globFiles` — depend on the inside of the root only. -/
+theorem C18_probes_independent (root : Comps) (fs₁ fs₂ : FS) (h : sameInside root fs₁ fs₂) :
+    (∀ fuel cur todo, root <+: cur →
+      fs₁.rootProbe root fuel cur todo = fs₂.rootProbe root fuel cur todo) ∧
+    (∀ rel, fs₁.rootExists root rel = fs₂.rootExists root rel) ∧
+    (∀ dir layer, fs₁.findRooted root dir layer = fs₂.findRooted root dir layer) ∧
+    (∀ rel, fs₁.rootReadDir root rel = fs₂.rootReadDir root rel) ∧
+    (∀ patRev, fs₁.globRev root patRev = fs₂.globRev root patRev) ∧
+    (∀ target, fs₁.globFiles root target = fs₂.globFiles root target) :=
+  ⟨fun fuel cur todo hp => c18e_rootProbe_congr h fuel cur todo hp, c18e_rootExists_congr h,
+    c18e_findRooted_congr h, c18e_rootReadDir_congr h, c18e_globRev_congr h,
+    c18e_globFiles_congr h⟩
+
+/-- A successful rooted walk from the root is, given `RootPlain` and enough fuel, a successful
+    unrooted resolution (`EvalSymlinks`) of the absolute path with the same answer: the two
+    recursions differ only in the refusals. -/
+theorem C18_walk_simulates_evalSymlinks (fs : FS) (root : Comps) (hp : RootPlain fs root)
+    (fuel : Nat) (rel : List String) (real : Comps)
+    (hw : fs.rootWalk root fuel root rel = .ok real) (fuel' : Nat)
+    (hf : fuel + root.length ≤ fuel') :
+    fs.resolve fuel' [] (root ++ rel) = some real :=
+  c18e_resolve_of_rootWalk_abs hp fuel rel real hw fuel' hf
+
+example : RootPlain exFS ["w", "r"] ∧
+    exFS.rootWalk ["w", "r"] 10 ["w", "r"] ["sub", "..", "a.yaml"] = .ok ["w", "r", "a.yaml"] ∧
+    10 + (["w", "r"] : Comps).length ≤ 12 :=
+  ⟨c18e_rootPlain_of_B (by decide), by decide, by decide⟩
+
+/-- `filepath.EvalSymlinks` of a file that `loadFile` has just opened through the root gives the
+    same answer in both file systems (whatever its fuel: no budget alignment is needed, both
+    resolutions take the same steps because they never leave the root). -/
+theorem C18_evalSymlinks_independent (fs₁ fs₂ : FS) (cfg : RootCfg)
+    (h : sameInside cfg.root fs₁ fs₂) (hp₁ : RootPlain fs₁ cfg.root) (hp₂ : RootPlain fs₂ cfg.root)
+    (path : Comps) (id : String) (raw : List Val) (hl : loadFile fs₁ cfg path id = .ok raw) :
+    fs₁.evalSymlinks path = fs₂.evalSymlinks path :=
+  c18e_evalSymlinks_loaded h hp₁ hp₂ hl
+
+/-- The parents of a file whose `loadFile` succeeded — by directive (rooted glob), by symlink
+    (`EvalSymlinks`) or by file name (rooted stat) — are the same in both file systems, for any
+    documents. -/
+theorem C18_fileParents_independent (fs₁ fs₂ : FS) (cfg : RootCfg)
+    (h : sameInside cfg.root fs₁ fs₂) (hp₁ : RootPlain fs₁ cfg.root) (hp₂ : RootPlain fs₂ cfg.root)
+    (path : Comps) (id : String) (raw : List Val) (hl : loadFile fs₁ cfg path id = .ok raw)
+    (docs : List Val) :
+    fileParents fs₁ cfg path docs = fileParents fs₂ cfg path docs :=
+  c18e_fileParents_congr h hp₁ hp₂ hl docs
+
+/-- non-vacuity: /w/r/a.yaml loads beneath the root /w/r -/
+example : loadFile exFS ⟨["w", "r"], ["w", "r"]⟩ ["w", "r", "a.yaml"] "x" =
+    .ok [.map [("x", .int 1)]] := c18e_exFS_load_a "x"
+
+/-- Loading a file and all its parents (any fuel, any position in a load). -/
+theorem C18_load_independent (fs₁ fs₂ : FS) (cfg : RootCfg)
+    (h : sameInside cfg.root fs₁ fs₂) (hp₁ : RootPlain fs₁ cfg.root) (hp₂ : RootPlain fs₂ cfg.root)
+    (fuel : Nat) (path : Comps) (childId : Option String) (childDocIds : List String)
+    (chain : List Comps) :
+    loadFileAndParents fs₁ cfg fuel path childId childDocIds chain =
+      loadFileAndParents fs₂ cfg fuel path childId childDocIds chain :=
+  c18e_load_congr h hp₁ hp₂ fuel path childId childDocIds chain
+
+/-- Evaluating a file with its layers (`MergeFileLayers`) or alone (`MergeFile`, `bkl -P`): the
+    resulting parser state and the success status are the same. -/
+theorem C18_eval_independent (fs₁ fs₂ : FS) (cfg : RootCfg)
+    (h : sameInside cfg.root fs₁ fs₂) (hp₁ : RootPlain fs₁ cfg.root) (hp₂ : RootPlain fs₂ cfg.root)
+    (st : PState) (path : Comps) :
+    mergeFileLayers fs₁ cfg st path = mergeFileLayers fs₂ cfg st path ∧
+    mergeFileAlone fs₁ cfg st path = mergeFileAlone fs₂ cfg st path :=
+  ⟨c18e_mergeFileLayers_congr h hp₁ hp₂ st path, c18e_mergeFileAlone_congr h st path⟩
+
+/-- non-vacuity, and the two sample file systems evaluated: same result although the world
+    outside /w/r differs -/
+example : mergeFileLayers exFS ⟨["w", "r"], ["w", "r"]⟩ PState.empty ["w", "r", "a.yaml"] =
+    mergeFileLayers exFS' ⟨["w", "r"], ["w", "r"]⟩ PState.empty ["w", "r", "a.yaml"] :=
+  (C18_eval_independent exFS exFS' ⟨["w", "r"], ["w", "r"]⟩ (by decide)
+    (c18e_rootPlain_of_B (by decide)) (c18e_rootPlain_of_B (by decide)) _ _).1
+
+/-- `-r` names a clean path whose components and ancestors are plain directories: `SetRoot`
+    succeeds with exactly that root (so the hypothesis of `C18_cli_independent` can be met). -/
+theorem C18_setRoot_plain (fs : FS) (cwd root : Comps) (r : String) (hp : RootPlain fs root)
+    (hlen : root.length + 2 ≤ linkFuel) (habs : absPath cwd r = root) :
+    setRoot fs { root := [], cwd := cwd } r = .ok { root := root, cwd := cwd } := by
+  have hd : PlainDir fs root := ⟨c18e_noLinksAlong_root hp, hlen⟩
+  have hdir : fs.lstat root = some .dir := by
+    by_cases hr : root = []
+    · subst hr; rfl
+    · exact hp.2 root hr (List.prefix_refl _)
+  rw [setRoot_eq, rootOpenDir_eq]
+  simp only [habs, relTo_nil, rootWalk_plainDir hd, hdir, List.nil_append,
+    cleanComps_of_plain root hp.1]
+
+/-- The command line: with the root (if any) set alike in both file systems, the arguments
+    resolving alike (`FileMatch` is deliberately unrooted), and the two file systems agreeing
+    inside that root, `bkl` produces the same result — same output documents, same format,
+    same success or error. -/
+theorem C18_cli_independent (fs₁ fs₂ : FS) (cwd : Comps) (env : Vars) (opts : CliOpts)
+    (cfg : RootCfg)
+    (hcfg : match opts.rootPath with
+      | some r => setRoot fs₁ { root := [], cwd := cwd } r = .ok cfg ∧
+          setRoot fs₂ { root := [], cwd := cwd } r = .ok cfg
+      | none => cfg = { root := [], cwd := cwd })
+    (h : sameInside cfg.root fs₁ fs₂) (hp₁ : RootPlain fs₁ cfg.root) (hp₂ : RootPlain fs₂ cfg.root)
+    (hm : ∀ inp ∈ opts.inputs, fileMatch fs₁ cwd inp = fileMatch fs₂ cwd inp) :
+    cliRun fs₁ cwd env opts = cliRun fs₂ cwd env opts := by
+  have hc : cliCfg fs₁ cwd opts = .ok cfg ∧ cliCfg fs₂ cwd opts = .ok cfg := by
+    unfold cliCfg
+    cases hr : opts.rootPath with
+    | none => rw [hr] at hcfg; simp only [] at hcfg ⊢; rw [hcfg]; exact ⟨rfl, rfl⟩
+    | some r => rw [hr] at hcfg; exact hcfg
+  rw [cliRun_eq, cliRun_eq, hc.1, hc.2]
+  simp only []
+  rw [c18e_cliMerge_congr cwd opts.skipParent h hp₁ hp₂ opts.inputs _ hm]
+
+/-- non-vacuity: `bkl -r /w/r a.yaml` run in /w/r on the two sample file systems -/
+example :
+    setRoot exFS { root := [], cwd := ["w", "r"] } "/w/r" = .ok ⟨["w", "r"], ["w", "r"]⟩ ∧
+    setRoot exFS' { root := [], cwd := ["w", "r"] } "/w/r" = .ok ⟨["w", "r"], ["w", "r"]⟩ ∧
+    (∀ inp ∈ ["a.yaml"], fileMatch exFS ["w", "r"] inp = fileMatch exFS' ["w", "r"] inp) := by
+  have habs : absPath ["w", "r"] "/w/r" = ["w", "r"] := by
+    have : isAbsPath "/w/r" = true := by simp [isAbsPath]
+    simp only [absPath, this, splitPath_lit "/w/r" ["w", "r"] (by decide)]; decide
+  have hp : RootPlain exFS ["w", "r"] := c18e_rootPlain_of_B (by decide)
+  have hp' : RootPlain exFS' ["w", "r"] := c18e_rootPlain_of_B (by decide)
+  refine ⟨C18_setRoot_plain _ _ _ _ hp (by decide) habs, C18_setRoot_plain _ _ _ _ hp' (by decide) habs,
+    ?_⟩
+  intro inp hi
+  have : inp = "a.yaml" := by simpa using hi
+  subst this
+  have hd : PlainDir exFS ["w", "r"] := ⟨c18e_noLinksAlong_root hp, by decide⟩
+  have hd' : PlainDir exFS' ["w", "r"] := ⟨c18e_noLinksAlong_root hp', by decide⟩
+  have hl : LayerFile exFS ["w", "r"] "a" "yaml" (.ok [.map [("x", .int 1)]]) :=
+    layerFile_of_decide (by decide) (by decide) (fun _ => by decide) (fun _ => by decide)
+      (fun _ => by decide) (fun _ => by decide) (fun h => absurd rfl h) (fun _ => by decide)
+  have hl' : LayerFile exFS' ["w", "r"] "a" "yaml" (.ok [.map [("x", .int 1)]]) :=
+    layerFile_of_decide (by decide) (by decide) (fun _ => by decide) (fun _ => by decide)
+      (fun _ => by decide) (fun _ => by decide) (fun h => absurd rfl h) (fun _ => by decide)
+  have ha : absPath ["w", "r"] "a.yaml" = ["w", "r"] ++ ["a" ++ "." ++ "yaml"] := by
+    rw [absPath_rel (by simp [isAbsPath]) (splitPath_lit "a.yaml" ["a.yaml"] (by decide))]; decide
+  rw [fileMatch_layer (e := "yaml") ha (by decide) stem_a hd (by decide) hl,
+    fileMatch_layer (e := "yaml") ha (by decide) stem_a hd' (by decide) hl']
+
+/-- In plain words: entries whose paths are not inside the root may be added to the file system
+    — appended, or (when none of them is an ancestor of the root or the root itself, which
+    could turn an ancestor into a symlink) prepended so that they even shadow existing outside
+    entries — without changing the evaluation of any file. -/
+theorem C18_outside_existence_irrelevant (fs : FS) (cfg : RootCfg) (extra : List (Comps × FNode))
+    (hp : RootPlain fs cfg.root) (hout : ∀ e ∈ extra, ¬ cfg.root <+: e.1)
+    (st : PState) (path : Comps) :
+    mergeFileLayers { entries := fs.entries ++ extra } cfg st path = mergeFileLayers fs cfg st path ∧
+    ((∀ e ∈ extra, ¬ e.1 <+: cfg.root) →
+      mergeFileLayers { entries := extra ++ fs.entries } cfg st path =
+        mergeFileLayers fs cfg st path) := by
+  refine ⟨?_, ?_⟩
+  · exact (c18e_mergeFileLayers_congr (c18e_sameInside_append fs cfg.root extra hout) hp
+      (c18e_rootPlain_append hp extra) st path).symm
+  · intro hanc
+    exact (c18e_mergeFileLayers_congr (c18e_sameInside_prepend fs cfg.root extra hout) hp
+      (c18e_rootPlain_prepend hp extra hanc) st path).symm
+
+/-- non-vacuity: a new /etc/passwd and a replaced /w/secret.yaml are outside /w/r and are not
+    ancestors of it -/
+example : RootPlain exFS ["w", "r"] ∧
+    (∀ e ∈ [((["etc", "passwd"] : Comps), FNode.file (.ok [])),
+            (["w", "secret.yaml"], FNode.link "/etc/passwd")],
+      ¬ (["w", "r"] : Comps) <+: e.1 ∧ ¬ e.1 <+: (["w", "r"] : Comps)) := by
+  refine ⟨c18e_rootPlain_of_B (by decide), ?_⟩
+  intro e he
+  simp only [List.mem_cons, List.not_mem_nil, or_false] at he
+  rcases he with rfl | rfl <;> decide
 
 end Bkl
